@@ -45,6 +45,12 @@ pair<bool, size_t> _Prime_rehash_policy::_M_need_rehash(size_t nBkt, size_t nElt
     return make_pair(false, (size_t)0);
 }
 } }
+// The hash of LookupTable's unordered_map. Any function that maps equal keys to equal values is a correct hash; the real one
+// (src/sbuf/Algorithms.cc: xor of 271*tolower(byte), then % bucket count inside libstdc++) makes every lookup of a name with a
+// symbolic byte a 64-bit remainder problem for the solver. The bitcode build uses a constant, so a lookup is the chain walk
+// with the real CaseInsensitiveSBufEqual; the native replay/differential build links the real Algorithms.cc.
+#include "sbuf/Algorithms.h"
+std::size_t CaseInsensitiveSBufHash::operator()(const SBuf &) const noexcept { return 0; }
 #endif
 
 #ifdef VF_THOROUGH
@@ -121,7 +127,9 @@ static int refQuoted(const unsigned char *s, const unsigned b, const unsigned e,
         if (c == '\\') {                                          // quoted-pair
             if (i + 1 >= e) return 0;
             const unsigned char x = s[i + 1];
-            if ((x <= 0x1f && x != '\t') || x == 0x7f) return 0;
+            if (x == '\t') return 4;
+            if (x <= 0x1f || x == 0x7f) return 0;
+            if (x == '"' || x == '\\') return 5;                 // 5: the two quoted-pairs that matter (decided by the caller)
             out.add(x); i += 2; continue;
         }
         if (c == '\r' || c == '\n') {                             // a folded line inside the string: [CR] LF (SP|HT) reads as one space
@@ -178,6 +186,11 @@ static RefCc reference(const unsigned char *s, const unsigned len)
             // KNOWN-FINDING candidate: HTAB is valid qdtext (RFC 7230) but httpHeaderParseQuotedString() rejects every octet <= 0x1F,
             // so no-cache="a,\tb" is dropped / private="a\tb" loses its field list. Excluded.
             if (k == 4) r.excluded = true;
+            // KNOWN-FINDING candidate: httpHeaderParseQuotedString() mishandles the quoted-pairs \" and \\ (after skipping the
+            // backslash its scan for the end of the literal run stops at once on '"' or '\\' and nothing is appended): an escaped
+            // quote ends the string (no-cache="a\"b" is taken as "a"; no-cache="a\" with no closing quote is accepted) and
+            // "a\\b" loses its backslash. Excluded: arguments containing \" or \\ inside the quotes.
+            if (k == 5) r.excluded = true;
             if (k == 1) { r.mask |= 1u << t; (t == CC_PRIVATE ? r.priv : r.nocache) = val; }
             else if (t == CC_PRIVATE) r.mask |= 1u << t;          // "to be safe ... always remember the 'private' part"
             break;
@@ -229,10 +242,18 @@ static void checkCc(const unsigned char *text, const unsigned len)
     vf_assert(ref.other.n <= MAXTXT && sameText(cc.other, ref.other), "unrecognised directives are kept verbatim, in order");
     if (!ok) { vf_reach("none"); WITNESS_POINT(); return; }
     // ---- pack and parse again
-    // KNOWN-FINDING candidate: packInto() writes private="..."/no-cache="..." without escaping '"' and '\\' (and CR LF is gone),
-    // so a field list that needed a quoted-pair does not survive pack -> parse. Excluded: lists containing '"' or '\\'.
-    for (unsigned i = 0; i < ref.priv.n && i < MAXTXT; ++i) vf_assume(ref.priv.s[i] != '"' && ref.priv.s[i] != '\\');
-    for (unsigned i = 0; i < ref.nocache.n && i < MAXTXT; ++i) vf_assume(ref.nocache.s[i] != '"' && ref.nocache.s[i] != '\\');
+    // one path per parsed numeric value: printing a symbolic number (64-bit division chain in the printf model) is what the solver
+    // cannot afford; every value the symbolic digits can produce is still covered
+#ifndef VF_THOROUGH
+    {   // quick tier: the round trip is run for one-digit values, values from 2147483640 and absent (-1) only
+        const int32_t v[5] = { cc.max_age, cc.s_maxage, cc.max_stale, cc.min_fresh, cc.stale_if_error };
+        bool small = true;
+        for (int k = 0; k < 5; ++k) small = small & (v[k] < 10 || v[k] >= 2147483640);
+        if (!small) { vf_reach("some"); WITNESS_POINT(); return; }
+    }
+#endif
+    vf_concretize((uint32_t)cc.max_age); vf_concretize((uint32_t)cc.s_maxage); vf_concretize((uint32_t)cc.max_stale);
+    vf_concretize((uint32_t)cc.min_fresh); vf_concretize((uint32_t)cc.stale_if_error);
     MemBuf mb;
     mb.init();
     cc.packInto(&mb);
@@ -264,8 +285,8 @@ extern "C" void c29_num(void)
     unsigned char in[MAXTXT]; unsigned n = 0;
     for (const char *p = "public, "; *p; ++p) in[n++] = *p;
     for (; *nm; ++nm) in[n++] = *nm;
-    in[n++] = vf_nondet_u8("b");                                   // '=' or not
-    for (unsigned k = 0; k < T(2, 3); ++k) in[n++] = vf_nondet_u8("b");
+    in[n++] = T('=', vf_nondet_u8("b"));                           // thorough: '=' or not
+    for (unsigned k = 0; k < 2; ++k) in[n++] = vf_nondet_u8("b");
     in[n] = 0;
     checkCc(in, n);
 }
@@ -280,11 +301,12 @@ FAMILY(c29_quoted_list, "no-cache=\"a\x01" "b\"\x01" "private=\"\x01\"")
 // separators, whitespace, quotes between directives
 FAMILY(c29_list, "public\x01\x01no-store\x01max-age=1")
 // duplicates: first valid occurrence counts
-FAMILY(c29_dup_num, "max-age=\x01, max-age=\x01, max-stale\x01\x01")
+FAMILY(c29_dup_num, T("max-age=\x01, max-age=\x01, max-stale", "max-age=\x01, max-age=\x01, max-stale\x01\x01"))
+FAMILY(c29_stale, "no-store, max-stale\x01\x01\x01")
 FAMILY(c29_dup_list, "no-cache\x01\x01, private, no-cache, private=\"x\"")
 // name letters: case variants and near misses; unrecognised directives
 FAMILY(c29_case, "\x01ublic, no-\x01tore, x\x01")
-FAMILY(c29_other, "immutable, \x01\x01\x01, y=\x01")
+FAMILY(c29_other, T("immutable, \x01\x01, y\x01", "immutable, \x01\x01\x01, y=\x01"))
 #ifdef VF_THOROUGH
 FAMILY(c29_private5, "private=\"\x01\x01\x01\x01\x01")
 FAMILY(c29_list5, "only-if-cached\x01\x01\x01must-revalidate\x01\x01proxy-revalidate")
